@@ -1224,8 +1224,12 @@ class RTCSctpTransport(AsyncIOEventEmitter):
         for stream_id, stream_seq in chunk.streams:
             inbound_stream = self._get_inbound_stream(stream_id)
 
-            # advance sequence number and perform delivery
-            inbound_stream.sequence_number = uint16_add(stream_seq, 1)
+            # advance sequence number and perform delivery; the skipped
+            # message may have been delivered already, never move backwards
+            if uint16_gt(
+                uint16_add(stream_seq, 1), inbound_stream.sequence_number
+            ):
+                inbound_stream.sequence_number = uint16_add(stream_seq, 1)
             for message in inbound_stream.pop_messages():
                 self._advertised_rwnd += len(message[2])
                 await self._receive(*message)
